@@ -39,6 +39,21 @@ def run(check, tier):
             runs.append({"group": (S.GROUPS[1 - S.GROUPS.index(g)] if other else g), "instance": r.choice(["new", "reused"]), "clock": clock,
                          "method": r.choice(["collect_paths", "next_paths", "collect_by_line", "next_by_line"])})
         cases.append({"runs": runs})
+    # abandoned runs: a consumer walks away from next_paths()/next_by_line() after one line, then the instance is used again
+    nab = 40 if tier == "quick" else 600
+    for i in range(nab):
+        L = r.randint(3, 6)
+        runs = []
+        for k in range(L):
+            kind = dict(r.choice(kinds))
+            kind["method"] = r.choice(["collect_paths", "next_paths", "collect_by_line", "next_by_line"])
+            if k < L - 1 and r.random() < 0.4:
+                kind["method"] = r.choice(["next_paths", "next_by_line"])
+                kind["abandon"] = True
+            if k > 0 and r.random() < 0.6:
+                kind["instance"] = "reused"
+            runs.append(kind)
+        cases.append({"runs": runs})
     results = run_cases("history_suite", "case_history", cases, chunk=4)
     lens = {}
     for res in results:
